@@ -19,7 +19,7 @@ DATA = {
  "C03": dict(
   technique="typestate (PathHolder ownership) + def-use provenance of error-constructor arguments over all interpreter paths",
   text="Every error construction receives the current path and value; every member descent pairs value[k] with deepcopy(path)[k]; "
-       "PathHolders are only indexed when owned; error facts are the guard's operands; formatter names the path. Decided for every construction and descent site on every path.",
+       "PathHolders are only indexed when owned; error facts are the guard's operands; each error's format() reaches the Formatter method of its class, reads only attributes its __init__ sets, renders error.path and never indexes it in place (abstract evaluation of format() on an instance built from symbolic arguments). Decided for every construction and descent site on every path.",
   note=_TB + "th.PathHolder indexing mutates in place (documented dependency behaviour)."),
  "C04": dict(
   technique="abstract interpretation of Substitutor.visit_* on token tables and list shapes (table-transformer laws)",
@@ -42,7 +42,7 @@ DATA = {
   text="Every operation on a validated value is total for the guarded kind (partial-operation table), formatter exhaustive and total on the kinds each error is built with, validate_or_fail shape.",
   note=_TB + "Partial-operation table (DESIGN appendix A); objects whose own special methods raise are out of scope as in the property."),
  "C09": dict(
-  technique="exhaustiveness analysis of the opcode/category dispatch + constant evaluation of category alphabets + bound entailment for repeat draws",
+  technique="abstract evaluation of the opcode/category dispatchers on every constant of the sre universe + constant evaluation of category alphabets + bound entailment for repeat draws + range-coverage of negated classes",
   text="Opcode and category dispatch end in a raise, supported set handled, must-refuse set never handled silently, no handler swallows the refusal, children flow into recursion, repeat bounds ordered, alphabets are subsets of their category. Not decided: full match of composed patterns.",
   note=_TB + "sre node schema of the analysing interpreter (3.12) read from re._constants as data."),
  "C10": dict(
@@ -78,11 +78,11 @@ DATA = {
   text="Whole property modulo CPython's random: all entropy is the seeded module generator, clock/uuid sites only where exempt, no hash-order dependence, no hidden state.",
   note=_TB + "random.seed determinism of CPython."),
  "C18": dict(
-  technique="parameter-threading and def-use analysis of rollout",
-  text="Separator threaded to every recursive call/split/join, optional re-attached at both store sites, grouping order-independent, groups recursed, leaves stored as received. The round trip itself is not decided.",
+  technique="abstract interpretation of rollout on a symbolic mapping (one / two symbolic entries): path conditions and abstract result tables compared with the specification of one rollout step",
+  text="Separator threaded to every recursive call/split/join, head/tail/leaf-or-group decision computed in a recognised idiom, optional re-attached on the tail, two keys with one head land in one group, groups recursed (or the path excludes a further separator), leaves stored as received, `...` passes through. The round trip itself is not decided.",
   note=_TB),
  "C19": dict(
-  technique="static import resolution of every mapping target against /repo's binding tables + structure rules on rewrite_imports",
-  text="Clause 1 whole: every mapping target resolves to a definition in /repo. Rewriter: name-preserving, only top-level absolute from-imports, unmapped names and aliases kept, column-aware splice. Not decided: output validity for all programs.",
+  technique="static import resolution of every mapping target against /repo's binding tables + abstract interpretation of rewrite_imports (one symbolic statement, one symbolic alias): path conditions at the recording of a replacement, the recorded text as a symbolic string, the spliced value",
+  text="Clause 1 whole: every mapping target resolves to a definition in /repo. Rewriter: name-preserving, only top-level absolute from-imports are recorded, mapped names emitted from their mapping target, unmapped names from their original module, aliases kept, splice keeps prefix/suffix of shared lines (byte offsets, read at application time). Not decided: output validity for all programs.",
   note=_TB + "Python import semantics for absolute from-imports."),
 }
